@@ -469,7 +469,7 @@ def run(ctx):
         core.run_sharded(ctx, __name__, 'shard_small', 1, (25,))
     else:
         n = getattr(ctx, 'shards_override', None) or 16
-        core.run_sharded(ctx, __name__, 'shard', n, (8000,))
+        core.run_sharded(ctx, __name__, 'shard', n, (20000,))
         core.run_sharded(ctx, __name__, 'shard_small', n, (1,))
         ctx.exhaustive['simple-events-one-reference-each'] = True
 
